@@ -1439,55 +1439,80 @@ func ruleCallOrder(prog *Program, rep *Report, floor int, rels ...string) {
 // (First / Get): which data the path is applied to - the optional second argument, the local value for an
 // @-path, the root otherwise - is decided by the same tests in the same order in both.
 func ruleGetTwins(prog *Program, rep *Report) {
-	rep.Rules = append(rep.Rules, "S-gettwin: the bodies of asm.get and asm.getall have the same statements once the function's own name, the name of its result, string literals and the jp.Expr method that produces the result (First / Get) are replaced by placeholders: both choose the data the path is applied to by the same tests in the same order")
+	rep.Rules = append(rep.Rules, "S-gettwin: the bodies of asm.get / asm.getall and of asm.set / asm.setall have the same statements once the function's own name, the name of its result, string literals and the jp.Expr method that does the work (First / Get, SetOne / Set) are replaced by placeholders - both choose the data the path is applied to by the same tests in the same order - and each function uses one method of its family in all its arms")
 	pk := prog.Pkg("asm")
 	if pk == nil {
 		rep.Errorf("S-gettwin: package asm not loaded")
 		return
 	}
-	lines := map[string][]string{}
-	pos := map[string]token.Pos{}
-	for _, name := range []string{"get", "getall"} {
-		fd, _ := prog.FuncDecl(Func(pk, name))
-		if fd == nil {
-			rep.Errorf("S-gettwin: asm.%s not found", name)
-			return
-		}
-		res := ""
-		if fd.Type.Results != nil && len(fd.Type.Results.List) == 1 && len(fd.Type.Results.List[0].Names) == 1 {
-			res = fd.Type.Results.List[0].Names[0].Name
-		}
-		var out []string
-		for _, l := range twinBodyLines(fd) {
-			l = regexp.MustCompile(`"[^"]*"`).ReplaceAllString(l, "STR")
-			l = regexp.MustCompile(`\b`+name+`\b`).ReplaceAllString(l, "NAME")
-			if res != "" {
-				l = regexp.MustCompile(`\b`+res+`\b`).ReplaceAllString(l, "RES")
+	for _, pair := range []struct {
+		a, b   string
+		family string
+	}{{"get", "getall", "First|Get"}, {"set", "setall", "SetOne|Set"}} {
+		lines := map[string][]string{}
+		pos := map[string]token.Pos{}
+		selRe := regexp.MustCompile(`\.(` + pair.family + `)\(`)
+		ok := true
+		for _, name := range []string{pair.a, pair.b} {
+			fd, _ := prog.FuncDecl(Func(pk, name))
+			if fd == nil {
+				rep.Errorf("S-gettwin: asm.%s not found", name)
+				ok = false
+				break
 			}
-			l = regexp.MustCompile(`\.(First|Get)\(`).ReplaceAllString(l, ".SEL(")
-			out = append(out, l)
+			res := ""
+			if fd.Type.Results != nil && len(fd.Type.Results.List) == 1 && len(fd.Type.Results.List[0].Names) == 1 {
+				res = fd.Type.Results.List[0].Names[0].Name
+			}
+			var out []string
+			used := map[string]bool{}
+			for _, l := range twinBodyLines(fd) {
+				l = regexp.MustCompile(`"[^"]*"`).ReplaceAllString(l, "STR")
+				l = regexp.MustCompile(`\b`+name+`\b`).ReplaceAllString(l, "NAME")
+				if res != "" {
+					l = regexp.MustCompile(`\b`+res+`\b`).ReplaceAllString(l, "RES")
+				}
+				for _, m := range selRe.FindAllStringSubmatch(l, -1) {
+					used[m[1]] = true
+				}
+				l = selRe.ReplaceAllString(l, ".SEL(")
+				out = append(out, l)
+			}
+			lines[name] = out
+			pos[name] = fd.Pos()
+			var us []string
+			for u := range used {
+				us = append(us, u)
+			}
+			sort.Strings(us)
+			if len(us) == 1 {
+				rep.Discharge("S-gettwin", "asm."+name+":one-method", prog.Pos(fd.Pos()), "every arm calls "+us[0])
+			} else {
+				rep.Violate(Finding{Rule: "S-gettwin", Key: "asm." + name + ":one-method", Pos: prog.Pos(fd.Pos()), Msg: fmt.Sprintf("asm.%s calls %v in its arms: the root, the local and the supplied data are not treated by one method (all / first only)", name, us)})
+			}
 		}
-		lines[name] = out
-		pos[name] = fd.Pos()
-	}
-	rep.Eval(len(lines["get"]))
-	if len(lines["get"]) < 8 {
-		rep.Errorf("S-gettwin: asm.get has %d statements (floor 8)", len(lines["get"]))
-	}
-	if strings.Join(lines["get"], "\n") == strings.Join(lines["getall"], "\n") {
-		rep.Discharge("S-gettwin", "asm.get=getall", prog.Pos(pos["get"]), fmt.Sprintf("%d statements equal up to the result method", len(lines["get"])))
-		return
-	}
-	a, b := diffLines(lines["get"], lines["getall"])
-	// order matters too: report the first position at which the two differ
-	first := ""
-	for i := range lines["get"] {
-		if i >= len(lines["getall"]) || lines["get"][i] != lines["getall"][i] {
-			first = lines["get"][i]
-			break
+		if !ok {
+			continue
 		}
+		rep.Eval(len(lines[pair.a]))
+		if len(lines[pair.a]) < 8 {
+			rep.Errorf("S-gettwin: asm.%s has %d statements (floor 8)", pair.a, len(lines[pair.a]))
+		}
+		key := "asm." + pair.a + "=" + pair.b
+		if strings.Join(lines[pair.a], "\n") == strings.Join(lines[pair.b], "\n") {
+			rep.Discharge("S-gettwin", key, prog.Pos(pos[pair.a]), fmt.Sprintf("%d statements equal up to the method that does the work", len(lines[pair.a])))
+			continue
+		}
+		a, b := diffLines(lines[pair.a], lines[pair.b])
+		first := ""
+		for i := range lines[pair.a] {
+			if i >= len(lines[pair.b]) || lines[pair.a][i] != lines[pair.b][i] {
+				first = lines[pair.a][i]
+				break
+			}
+		}
+		rep.Violate(Finding{Rule: "S-gettwin", Key: key, Pos: prog.Pos(pos[pair.a]), Msg: fmt.Sprintf("asm.%s and asm.%s no longer choose their data alike: first difference at `%s`; only in %s %v, only in %s %v", pair.a, pair.b, first, pair.a, a, pair.b, b)})
 	}
-	rep.Violate(Finding{Rule: "S-gettwin", Key: "asm.get=getall", Pos: prog.Pos(pos["get"]), Msg: fmt.Sprintf("asm.get and asm.getall no longer choose their data alike: first difference at `%s`; only in get %v, only in getall %v", first, a, b)})
 }
 
 // ---------------------------------------------------------------- K-fallbacktwin
